@@ -176,6 +176,50 @@ Fixpoint ok_polled_from (u : Z) (pI pC pT : bool) (obs : list stepobs) : bool :=
 Definition ok_cancel_polled (dl : list Z) (obs : list stepobs) : bool :=
   forallb (fun u => ok_polled_from u false false false obs) dl.
 
+(* ---- the kill reaches the running process; cancel does not wait for the natural end ----
+   Per uid, over the recorded actions: whether its process runs (spawned, and
+   neither exited nor killed since), whether a kill attempt is under way
+   (between the signals of LaunchMethod.cancel_task and the return of
+   proc.wait()), and whether a signal of that attempt was delivered without
+   effect (a process that outlives the kill).
+   kill_reaches_running_process: a signal is answered "no such process"
+     (K_KILL u 0) only when the process of u does not run -- a running process
+     is reached by the kill.
+   cancel_does_not_wait_for_natural_end: while a kill attempt is under way the
+     process ends by itself (K_EXIT u) only if a signal was delivered without
+     effect: cancel_task does not sit in proc.wait() for the natural end of a
+     process that it failed to signal. *)
+Record kst := mkKst { ks_ok1 : bool; ks_ok2 : bool; ks_run : bool; ks_killing : bool; ks_noeff : bool }.
+Definition kst0 : kst := mkKst true true false false false.
+Definition kst_ev (u : Z) (st : kst) (e : event) : kst :=
+  let '(k, v, a) := e in
+  if negb (v =? u) then st
+  else if k =? K_SPAWN then (if a =? 1 then mkKst (ks_ok1 st) (ks_ok2 st) true false false else st)
+  else if k =? K_EXIT then
+         mkKst (ks_ok1 st) (ks_ok2 st && (negb (ks_killing st) || ks_noeff st)) false (ks_killing st) (ks_noeff st)
+  else if k =? K_KILL then
+         let ne := if ks_killing st then ks_noeff st else false in
+         if a =? 1 then mkKst (ks_ok1 st) (ks_ok2 st) false true ne
+         else if a =? 0 then mkKst (ks_ok1 st && negb (ks_run st)) (ks_ok2 st) (ks_run st) true ne
+         else mkKst (ks_ok1 st) (ks_ok2 st) (ks_run st) true true
+  else if k =? K_WAIT then mkKst (ks_ok1 st) (ks_ok2 st) (ks_run st) false (ks_noeff st)
+  else st.
+Definition kst_of (u : Z) (evs : list event) : kst := fold_left (kst_ev u) evs kst0.
+Definition ok_kill_reaches (dl : list Z) (obs : list stepobs) : bool :=
+  let evs := all_events obs in forallb (fun u => ks_ok1 (kst_of u evs)) dl.
+Definition ok_no_natural_wait (dl : list Z) (obs : list stepobs) : bool :=
+  let evs := all_events obs in forallb (fun u => ks_ok2 (kst_of u evs)) dl.
+
+(* bystanders are not signalled: no signal goes to the process group of the
+   executor (which holds the agent and every task without a session of its
+   own), and the process of a task that no request names and that has no
+   run-time limit is never killed *)
+Definition ok_not_signalled (sc : scenario) (obs : list stepobs) : bool :=
+  let evs := all_events obs in
+  negb (existsb (fun e : event => let '(k, _, _) := e in k =? K_GSIG) evs)
+  && forallb (fun x : tdesc => negb (existsb (event_eqb (ev K_KILL (d_uid x) 1)) evs))
+             (filter (fun x => negb (mem (d_uid x) (named sc)) && negb (d_to x)) (concat (sc_batches sc))).
+
 (* ---- the cancel handler examines every uid of every request ----
    control_cb walks the uid list of the message AS RECEIVED and looks every
    uid up in self._tasks (get_task): at quiescence the control thread has
@@ -229,7 +273,8 @@ Definition ok_named_examined (sc : scenario) (obs : list stepobs) (q : bool) : b
 Definition c07_clauses (sc : scenario) (obs : list stepobs) (q : bool) : list bool :=
   let dl := delivered sc in let ems := emissions obs in
   [ ok_announced dl q ems; ok_handed_on dl q ems; ok_unscheduled dl q ems; ok_not_both dl ems;
-    ok_outcome_attached ems; ok_order dl ems; ok_truthful obs; ok_named_examined sc obs q; ok_cancel_polled dl obs; ok_handler_covers sc obs q ].
+    ok_outcome_attached ems; ok_order dl ems; ok_truthful obs; ok_named_examined sc obs q; ok_cancel_polled dl obs; ok_handler_covers sc obs q;
+    ok_kill_reaches dl obs; ok_no_natural_wait dl obs; ok_not_signalled sc obs ].
 
 Definition c07_row (sc : scenario) (sched : list choice) (obs : list stepobs) (q : bool) (fin : final) : list bool :=
   corr_bit sc sched obs q fin :: c07_clauses sc obs q.
@@ -303,7 +348,8 @@ Definition ok_bystanders (sc : scenario) (obs : list stepobs) (q : bool) : bool 
 
 Definition c08_exec_clauses (sc : scenario) (obs : list stepobs) (q : bool) : list bool :=
   [ ok_named_end sc q (emissions obs); ok_canceled_stopped (delivered sc) obs; ok_later_met sc obs;
-    ok_bystanders sc obs q; ok_named_examined sc obs q; ok_cancel_polled (delivered sc) obs; ok_handler_covers sc obs q ].
+    ok_bystanders sc obs q; ok_named_examined sc obs q; ok_cancel_polled (delivered sc) obs; ok_handler_covers sc obs q;
+    ok_kill_reaches (delivered sc) obs; ok_no_natural_wait (delivered sc) obs; ok_not_signalled sc obs ].
 
 Definition c08_exec_row (sc : scenario) (sched : list choice) (obs : list stepobs) (q : bool) (fin : final) : list bool :=
   corr_bit sc sched obs q fin :: c08_exec_clauses sc obs q.
